@@ -45,10 +45,11 @@ AUTHZ_TRUSTED = ["Go's regexp is not modelled (Section variable rx; theorems hol
                  "The D-level re-interning through two symbol tables (authorizer.go:120-134) is covered by the correspondence, which "
                  "compares verdict, failed-check list, the world's ORDERED fact list and query results after resolution",
                  "wall-clock timeout not modelled (harness uses a 20 s maxDuration)"]
-prop("C02", coq_deps=AUTHZ_DEPS,
-     theorems=["C02_monotone", "C02_no_content_helps", "C02_exact_effect", "C02_prefix_cases"],
-     trusted=AUTHZ_TRUSTED + ["tokens with dangling symbol indexes (not producible through the builders) are outside the S-level model: see known finding F9"],
-     assumptions=["T <> [] (a token has an authority block)"])
+prop("C02", coq_deps=AUTHZ_DEPS + ["TokenProofs.v", "SymbolsProofs.v", "WireProofs.v", "Token.v", "Wire.v", "Symbols.v", "DTerm.v", "Chain.v", "History.v"],
+     theorems=["C02_monotone", "C02_no_content_helps", "C02_exact_effect", "C02_prefix_cases", "C02_token_attenuation", "C02_parent_content_unchanged"],
+     trusted=AUTHZ_TRUSTED + ["dangling symbol indexes are refused by Unmarshal since fix 6773711 (modelled in Token.unmarshal_blocks); the capture attempt is replayed at every symbol position on every run"],
+     assumptions=["T <> [] (a token has an authority block)",
+                  "C02_token_attenuation (Properties/C02_tokens.v) states the property for library tokens with their symbol tables: a block built once from CreateBlock of the token (token_inv)"])
 prop("C03", coq_deps=AUTHZ_DEPS,
      theorems=["C03_authority_phase_blind", "C03_blocks_independent", "C03_other_blocks_unaffected", "C03_block_facts_local",
                "C03_block_insert", "C03_state_blind", "C03_queries_blind", "C03_authority_visible"],
@@ -90,10 +91,11 @@ prop("C01", coq_deps=CHAIN_DEPS,
                "C01_seal_payload_injective", "C01_complete", "C01_accepted_is_signed", "C01_unsigned_link_rejected",
                "C01_unsigned_seal_rejected", "C01_wrong_secret_rejected"],
      trusted=CHAIN_TRUSTED, assumptions=["cryptographic strength of ed25519 is the hypothesis verify_sound (partial in that respect)"])
-prop("C09", coq_deps=CHAIN_DEPS,
+prop("C09", coq_deps=CHAIN_DEPS + ["TokenProofs.v", "SymbolsProofs.v", "WireProofs.v", "Token.v", "Wire.v", "Symbols.v", "DTerm.v", "History.v", "Authz.v", "Datalog.v", "Expr.v", "Term.v"],
      theorems=["C09_seal_verifies", "C09_same_revocation_ids", "C09_same_root_id", "C09_frozen", "C09_tamper_rejected",
-               "C09_seal_payload_injective"],
-     trusted=CHAIN_TRUSTED, assumptions=["same Datalog content <=> same blocks: the authorizer reads only c_auth/c_blocks"])
+               "C09_seal_payload_injective", "C09_same_datalog_content", "C09_same_authorization"],
+     trusted=CHAIN_TRUSTED, assumptions=["envelope level: same blocks; token level (Properties/C09_content.v): same authority block, blocks and cumulative symbol table, "
+                                          "hence the same resolved content and the same result of authorize for every authorizer state (token_inv)"])
 prop("C16", coq_deps=CHAIN_DEPS,
      theorems=["C16_id_at_build", "C16_id_survives_append", "C16_id_survives_seal", "C16_id_travels", "C16_lookup_exact"],
      trusted=CHAIN_TRUSTED, assumptions=[])
